@@ -10,7 +10,9 @@ LEVEL = "exploration"
 FORK_PER_CASE = True
 CASE_TIMEOUT = 240.0
 
-REGULAR = ["exact-chain", "exact-dag", "approx-tail", "stripe-stress", "buffer-stress", "lut-stress", "alias-stress", "cpu-mix"]
+REGULAR = ["exact-chain", "cpu-mix", "exact-dag", "approx-tail", "cpu-mix", "stripe-stress", "buffer-stress", "cpu-mix", "lut-stress", "alias-stress"]
+# the hostile sub-generators in a fixed cycle (binary and wide-types, whose dtype x shape product is the largest, twice)
+HOSTILE_CYCLE = list(range(hostile.N_KINDS)) + [1, 8]
 VERBOSE_FLAGS = ["--verbose-graph", "--verbose-quantization", "--verbose-packing", "--verbose-tensor-purpose", "--verbose-tensor-format",
                  "--verbose-schedule", "--verbose-allocation", "--verbose-high-level-command-stream", "--verbose-register-command-stream",
                  "--verbose-operators", "--verbose-weights", "--verbose-performance", "--verbose-progress", "--show-cpu-operations",
@@ -19,7 +21,7 @@ VERBOSE_FLAGS = ["--verbose-graph", "--verbose-quantization", "--verbose-packing
 
 
 def gen_cases(tier, seed):
-    n = 480 if tier == "quick" else 12000
+    n = 720 if tier == "quick" else 12000
     rng = np.random.default_rng(np.random.SeedSequence([13, seed]))
     cases = []
     for i in range(n):
@@ -35,13 +37,16 @@ def gen_cases(tier, seed):
             cfg["acc"] = ["ethos-u65-256", "ethos-u55-128", "ethos-u65-512", "ethos-u55-32"][(i // 6) % 4]
             cfg["mode"] = None if (i // 6) % 3 else cfg.get("mode")
             cfg["cache"] = [None, 0, 1024][(i // 12) % 3]
-        cases.append({"family": fam, "nseed": int(seed * 1000003 + i), "cfg": cfg, "cli": bool(i % 3 == 0) if tier == "quick" else bool(i % 8 == 0)})
+        case = {"family": fam, "nseed": int(seed * 1000003 + i), "cfg": cfg, "cli": bool(i % 3 == 0) if tier == "quick" else bool(i % 8 == 0)}
+        if fam == "hostile":
+            case["hkind"] = HOSTILE_CYCLE[(i // 2) % len(HOSTILE_CYCLE)]  # every sub-generator gets its share on every seed
+        cases.append(case)
     return cases
 
 
 def make_net(case):
     if case["family"] == "hostile":
-        return hostile.fam_hostile(case["nseed"])
+        return hostile.fam_hostile(case["nseed"], case.get("hkind"))
     return netgen.make(case["family"], case["nseed"])
 
 
@@ -121,7 +126,7 @@ def run_case(case):
 def summarise(agg, tier):
     q = tier == "quick"
     return {
-        "thresholds": {"models": 300 if q else 8000, "cli_confirmed_outcomes": 100 if q else 1200, "inproc_ok-compiled": 100 if q else 3000},
+        "thresholds": {"models": 450 if q else 8000, "cli_confirmed_outcomes": 120 if q else 1200, "inproc_ok-compiled": 100 if q else 3000},
         "rule": "case = (generated model, option set); families: 'hostile' (19 sub-generators: every unary/binary builtin x 11 dtypes x rank 0-5, "
                 "batch>1, no-op graphs, kernel extremes, odd/missing/per-axis/mismatched quantisation, empty buffers, zero dims, ...) and the 8 regular "
                 "families; distinct = distinct (family, operator kinds, outcome) triples",
